@@ -139,11 +139,13 @@ func (u *Universe) NewValue(rng *rand.Rand, big bool, rootFragment []byte) ([]by
 	u.mu.Unlock()
 	var b []byte
 	tag := []byte(fmt.Sprintf("v%d|", ctr))
-	if !u.FragBoost && len(rootFragment) > 44 {
-		// Outside the crash driver (which recognises them) a value never holds a
-		// COMPLETE copy of an earlier root record: reverts re-create offsets, the
-		// copy could land exactly where that record once stood and would then be
-		// a self-consistent root record at its position.  Its first byte goes.
+	if len(rootFragment) > 44 {
+		// A value never holds a COMPLETE copy of an earlier root record: reverts
+		// and recoveries re-create offsets, the copy could land exactly where
+		// that record once stood and would then be a self-consistent root record
+		// at its position (which C03 / C08 rightly accept as a flush).  Its first
+		// byte goes; complete copies only appear in junk tails, where the crash
+		// driver recognises them.
 		rootFragment = rootFragment[1:]
 	}
 	switch r := rng.Intn(20); {
